@@ -76,7 +76,7 @@ def run_case(ctx, case_seed, kind, prefix):
             'recs': [(r['category'], sorted(r['data']), repr(r['metadata'])[:200]) for r in recs]}
     ctx.case(desc, nontrivial=any(r['data'] for r in recs))
     witness = {'case_seed': case_seed, 'kind': kind, 'prefix': prefix}
-    with open_box(kind, prefix=prefix) as box:
+    with open_box(kind, prefix=prefix, hostile_dir=(case_seed % 4 == 1)) as box:
         cas = box.cassette
         live = []
         # interleave: create all, fill in random order, save in random order
@@ -127,6 +127,33 @@ def run_case(ctx, case_seed, kind, prefix):
         reader = box.reader()
         for r in recs:
             check_fetch(ctx, reader, r, kind, witness)
+        # the history goes on: some recordings are saved AGAIN under their id with other data and metadata (by the writer), then read
+        # through the very same reader object that already served them (and listed them) before
+        if rng.random() < 0.5:
+            from playback.recordings.memory.memory_recording import MemoryRecording
+            g2 = Gen(rng, ctx)
+            try:
+                for cat in set(r['category'] for r in recs):
+                    list(reader.iter_recording_ids(cat))
+            except Exception as ex:
+                ctx.violation('listing raised %s on %s cassette' % (type(ex).__name__, kind), witness)
+            for r in rng.sample(recs, min(len(recs), rng.randrange(1, 3))):
+                for _try in range(10):
+                    nd = {gen_key(rng): g2.value(2, sharing=False) for _ in range(rng.randrange(0, 4))}
+                    nm = {'m%d' % i: g2.value(2, sharing=False) for i in range(rng.randrange(0, 3))}
+                    if recording_in_domain(nd, nm):
+                        break
+                else:
+                    nd, nm = {'k': 2}, {'m': 3}
+                again = MemoryRecording(r['id'])
+                for k, v in nd.items():
+                    again.set_data(k, v)
+                again.add_metadata(nm)
+                r['model'] = (fresh(nd), fresh(nm))
+                cas.save_recording(again)
+                ctx.count('resaves_with_new_content')
+            for r in recs:
+                check_fetch(ctx, reader, r, kind, dict(witness, after='re-save, same reader object'))
         # unknown ids
         real = [r['id'] for r in recs]
         probes = ['nope', 'Op/deadbeef', real[0][:-1], real[0] + '0', real[0].split('/')[0], '']
